@@ -94,7 +94,7 @@ class AllHex:
         return SV(ISHEX(z(self.text)), "bool")
 
 
-@contract(HTTPING + ":parseChunk", props=["C17", "C16"], name=HTTPING + ":parseChunk[any fragmentation; no chunk extension]", z3_ms=3000)
+@contract(HTTPING + ":parseChunk", props=["C17", "C16", "C13"], name=HTTPING + ":parseChunk[any fragmentation; no chunk extension]", z3_ms=3000)
 def parse_chunk(B):
     ctx = B.ctx
     log = ctx.ghost["log"] = []
